@@ -359,6 +359,37 @@ func (h *hist) peerSetOracle(a *hx.Node) {
 	}
 }
 
+// witnessMembership (C10): only peers in a round's validator set can be witnesses of that round (hence be voters,
+// be counted in its quorums, become famous and feed the block timestamp). Evaluated on the rounds still in the store.
+func (h *hist) witnessMembership(a *hx.Node) {
+	w := h.w
+	first := 0
+	if a.Hg.FirstConsensusRound != nil {
+		first = *a.Hg.FirstConsensusRound
+	}
+	for r := first; r <= a.Store.LastRound(); r++ {
+		ri, err := a.Store.GetRound(r)
+		if err != nil {
+			continue
+		}
+		ps, err := a.Store.GetPeerSet(r)
+		if err != nil {
+			continue
+		}
+		for _, x := range ri.Witnesses() {
+			ev, err := a.Store.GetEvent(x)
+			if err != nil {
+				continue
+			}
+			h.actions["c10-witness-membership-checked"]++
+			if _, ok := ps.ByPubKey[ev.Creator()]; !ok {
+				w.Violation("C10", "witness-outside-the-round-validator-set", fmt.Sprintf("node=%d round=%d eid=%d creator=%d", a.ID, r, w.Eid(x), w.Ord(ev.Creator())))
+				return
+			}
+		}
+	}
+}
+
 func lookup(table map[int][]int, r int) []int {
 	best := -1
 	for k := range table {
@@ -394,11 +425,19 @@ func (h *hist) timestampOracle(a *hx.Node) {
 		}
 		all, hon := []int64{}, []int64{}
 		complete := true
+		members, _ := a.Store.GetPeerSet(b.RoundReceived())
 		for _, x := range ri.FamousWitnesses() {
 			ev, gerr := a.Store.GetEvent(x)
 			if gerr != nil {
 				complete = false
 				break
+			}
+			if members != nil {
+				if _, ok := members.ByPubKey[ev.Creator()]; !ok {
+					// the sample is the claimed times of the famous witnesses OF THE ROUND'S VALIDATORS
+					w.Violation("C18", "timestamp-sample-contains-a-non-validator", fmt.Sprintf("node=%d block=%d round=%d eid=%d creator=%d", a.ID, a.Base+k, b.RoundReceived(), w.Eid(x), w.Ord(ev.Creator())))
+					continue
+				}
 			}
 			t := ev.Body.Timestamp
 			all = append(all, t)
@@ -455,6 +494,7 @@ func (h *hist) finalOracles() {
 			h.frameOracle(a)
 		}
 		h.peerSetOracle(a)
+		h.witnessMembership(a)
 		if !a.Faulty {
 			h.conservation(a)
 		}
